@@ -65,6 +65,7 @@ def mworld (m : Mach) (fuel : Nat) : World M MV where
   int := .int
   str := .str
   list := .list
+  newList vs := pure (.list vs)
   tuple := .list
   global _ := throw "NameError"
   truthy
